@@ -9,10 +9,17 @@ import sys
 
 HERE = os.path.dirname(os.path.abspath(__file__))
 VERIF = os.path.dirname(HERE)
+import json
 expect_fail = "--expect-fail" in sys.argv
+expect = json.load(open(os.path.join(VERIF, "regress", "EXPECT.json")))
+# with --expect-fail, VERIF_TREE names the tree VERIF_REPO points at ('pinned' by default)
+tree = os.environ.get("VERIF_TREE", "pinned")
 bad = 0
-for f in sorted(glob.glob(os.path.join(VERIF, "regress", "*.json"))):
+for f in sorted(glob.glob(os.path.join(VERIF, "regress", "F*.json"))):
     prop = os.path.basename(f).split("-")[1]
+    if expect_fail and expect.get(os.path.basename(f), "pinned") != tree:
+        print("skip " + os.path.basename(f), f"(defect present at {expect.get(os.path.basename(f), 'pinned')}, not on tree '{tree}')")
+        continue
     r = subprocess.run(["/venv/bin/python", os.path.join(VERIF, "check.py"), prop, "--replay", f], capture_output=True, text=True, timeout=600)
     rep = "reproduced=yes" in r.stdout
     ok = rep == expect_fail
